@@ -144,11 +144,8 @@ def analyse(ctx, run, bools):
     return rows, ok
 
 
-def forced_lock(ctx, bools):
-    """The two interleavings the model singles out, forced on real work packages (nothing but delays injected)."""
-    st = mc.make_settings(ctx.rng, 2, n_inputs=3, n_outputs=2)
-    run = mc.run_job(ctx, 'lockrace', st, W=2, mode='lockrace')
-    rows, ok = analyse(ctx, run, bools)
+def lock_model_check(ctx, run, rows, ok, bools):
+    """forced double acquisition (corpus): which row survives vs Model.MonteCarlo.double_acquire_schedule"""
     roles = {t['role']: t for t in run.tasks}
     same = {'A', 'B'} <= set(roles) and mc.task_entries(roles['A']) == mc.task_entries(roles['B'])
     if len(ok) == 2 and len(rows) == 1 and {'A', 'B'} <= set(roles) and not same:
@@ -159,10 +156,6 @@ def forced_lock(ctx, bools):
             inp=_inp(run), expected='[1] (B)', observed=survivor)))
     else:
         ctx.note(f'forced double acquisition: {len(rows)} rows for {len(ok)} finished work packages (lock model predicts 1 for 2)')
-    st1 = mc.make_settings(ctx.rng, 1, n_inputs=2, n_outputs=1)
-    run1 = mc.run_job(ctx, 'locktimeout', st1, W=1, mode='locktimeout')
-    analyse(ctx, run1, bools)
-    ctx.count('forced-lock-interleavings', evaluations=2, nontrivial_keys=['double-acquire', 'timeout'])
 
 
 def pool_specs(ctx):
@@ -175,10 +168,13 @@ def pool_specs(ctx):
 
 def correspondence(ctx, proofs_ok=True):
     bools = []
+    specs = mc.corpus_specs('C13')      # seeds first: fork-copy witness and the two forced lock interleavings
     for k, (W, n, st) in enumerate(pool_specs(ctx)):
-        st = st.rsplit('ITERATIONS', 1)[0] + f'ITERATIONS, {n}\n'
-        analyse(ctx, mc.run_job(ctx, f'pool{k}', st, W=W), bools)
-    forced_lock(ctx, bools)
+        specs.append({'name': f'pool{k}', 'W': W, 'st': st.rsplit('ITERATIONS', 1)[0] + f'ITERATIONS, {n}\n'})
+    for run in mc.run_jobs(ctx, specs, parallel=2):
+        rows, ok = analyse(ctx, run, bools)
+        if run.mode == 'lockrace':
+            lock_model_check(ctx, run, rows, ok, bools)
     failing = fw.kernel_bools(ctx, 'c13', REQ, [b for b, _ in bools], open_scope='string_scope')
     for i in failing:
         bools[i][1]()
